@@ -182,7 +182,8 @@ let handle_q (toks : string list) : string =
             | `Chk s | `Diff s -> s
             | `Ok ->
                 if count_groups inp >= 2 && (qy.pq_having <> None || qy.pq_order <> [] || has_limit) then "ok nt"
-                else if mode = "p" then "ok nt" else "ok")
+                else if mode = "p" then "ok nt"
+              else if mode = "t" && qy.pq_distinct && count_groups inp >= 2 then "ok nt" else "ok")
        | [] -> failwith "no output")
   | _ -> "bad line"
 
